@@ -52,6 +52,19 @@ def run_property(pid: str, tier: str) -> int:
         mod.run(rep, tier)
         return rep.finish()
     except AnalysisError as e:
+        # a rule that could not be decided does not erase violations other rules already established
+        if rep.findings:
+            rep.info(f"PARTIALLY UNDECIDED: a later rule ended with an analysis error and was not evaluated: {e}")
+            print(f"note: property={pid}: some rules were not evaluated (analysis error: {e}); findings of the rules that ran stand on their own")
+            try:
+                code = rep.finish()
+            except AnalysisError as e2:
+                print(f"ANALYSIS-ERROR property={pid}: {e2}")
+                _error_evidence(pid, tier, str(e2), t0)
+                return 2
+            if code == 1:
+                return 1
+            # only listed known findings so far: the property as a whole is still undecided
         print(f"ANALYSIS-ERROR property={pid}: {e}")
         _error_evidence(pid, tier, str(e), t0)
         return 2
